@@ -1,2 +1,7 @@
 """C19 -- the packet queue is lossless, in order, exactly once (bounded: inverses, histories, crash points)."""
-from bounded.bC19 import run as bounded  # noqa: F401
+
+
+def bounded(tier, seed, info):
+    from bounded.bC19 import run
+    from bounded.bHist import run_queue_damage_histories
+    return run(tier, seed, info) + run_queue_damage_histories('C19', tier, seed)
